@@ -2271,6 +2271,10 @@ main(int argc, char **argv)
 {
 	vf_init(argc, argv);
 	vf_nng_init(4, 2, 2);
+	if (vf_verbose >= 2) {
+		nng_log_set_logger(nng_stderr_logger);
+		nng_log_set_level(NNG_LOG_DEBUG);
+	}
 	vf_rng r;
 	long   ncases = 0;
 	static victim V;
